@@ -272,6 +272,15 @@ func quad(f func(float64) float64, lo, hi, c float64, n int) float64 {
 	return s / float64(n)
 }
 
+func hasFn(f *Fam, fn string) bool {
+	for _, g := range f.Fns {
+		if g == fn {
+			return true
+		}
+	}
+	return false
+}
+
 func logpdfGo(d interface{}, x float64) Outcome {
 	return call(d, "LogPdf", ad.NewReal64(3.5), x)
 }
@@ -314,6 +323,16 @@ func hunt(o Opts) {
 		obs, inc := evalAll(f, p, "LogPdf", x)
 		if inc != "" {
 			report(mkF(f.Name, "consistency", "LogPdf", p, x, inc, "identical outcomes"))
+		}
+		if hasFn(f, "Pdf") {
+			// the Pdf method is `LogPdf; r.Exp(r)`: same error, else the exponential of what LogPdf returned
+			po, pinc := evalAll(f, p, "Pdf", x)
+			if pinc != "" {
+				report(mkF(f.Name, "consistency", "Pdf", p, x, pinc, "identical outcomes"))
+			}
+			if ok, exp := pdfAgrees(obs, po); !ok {
+				report(mkF(f.Name, "pdf-exp", "Pdf", p, x, fmt.Sprintf("%s %v", po.Kind, po.V), exp))
+			}
 		}
 		ref := refLogPdf(f.Name, p, x)
 		if math.IsNaN(ref) {
@@ -359,7 +378,7 @@ func hunt(o Opts) {
 					continue
 				}
 				checkPoint(f, c.P, c.X)
-				if c.Fn != "LogPdf" && c.Fn != "Ctor" {
+				if c.Fn != "LogPdf" && c.Fn != "Ctor" && c.Fn != "Pdf" {
 					cdfChecks(f, c.P, report, &tried, []float64{c.X})
 				}
 			}
